@@ -64,10 +64,12 @@ class PathCtx:
             if can_t is False and can_f is False:
                 raise PathInfeasible()
             if can_t is False:
-                # implied: not a branching point
+                # implied: recorded in the schedule (so that a replay consumes it) but no alternative
+                self.taken.append(False)
                 self.pc.append(nt)
                 return False
             if can_f is False:
+                self.taken.append(True)
                 self.pc.append(t)
                 return True
             choice = True
